@@ -186,6 +186,9 @@ def main(argv=None):
 
     out_lines = []
     exit_code = 0
+    import glob
+    for old in glob.glob(os.path.join(VERIF, "out", "replays", "%s-seed%d-*.json" % (prop, seed))):
+        os.remove(old)
     for sig, hits in known_hits.items():
         out_lines.append("KNOWN-FINDING: property=%s %s (%d case(s) this run; signature %s)" % (
             prop, known_sigs[sig]["what"], len(hits), sig))
